@@ -14,10 +14,13 @@ CLAIM = ('Proved in Coq for the model, Numbers naming (NumbersDirect naming: C06
          'files in reader order - parsed infix, archives decompressed - equal everything logged by all runs, or a tail of it '
          "under a cleanup limit; soundness C06_oracle_sound, C06_tail_sound) applied to the implementation's directory snapshots "
          'after every flush and stop, and by the correspondence check (model = implementation on every history). A restart '
-         'theorem for TimestampsDirect and custom formats is not proved: partial. Also proved for TimestampsDirect naming over '
-         'sequences of runs (C06_restarts_timestampsdirect, C06_restarts_timestampsdirect_keep; a run with append needs local '
-         'time or a zero zone offset - with use_utc and another offset the newest file is not found again and records are '
-         'reordered without loss: counterexample in Flw/TsdRestart.v, see DESIGN.md section 9). ')
+         'theorem for custom time-stamp formats and for histories with cleanup is not proved: partial. Also proved for TimestampsDirect naming over '
+         'sequences of runs, local time or use_utc with any zone offset (C06_restarts_timestampsdirect, '
+         'C06_restarts_timestampsdirect_keep). Their proof found a defect: with append, use_utc and a zone offset other than zero the '
+         'time stamp of the newest file was read back as local time, the newest file was not continued and the names no longer '
+         'sorted in the order of writing; confirmed on the code, repaired (79e01d3), the former counterexample is now a positive '
+         'example (Flw/TsdRestart.v tsd_utc_append_fine) and a corpus case; the histories are generated with zone offsets 0, +1 h, '
+         '-9:30 h and use_utc on/off. ')
 THEOREMS = ["C06_restarts_numbers", "C06_restarts_keep", "C06_restarts_numbersdirect", "C06_restarts_timestamps", "C06_restarts_timestamps_keep", "C06_oracle_sound", "C06_tail_sound", "C06_restarts_timestampsdirect", "C06_restarts_timestampsdirect_keep"]
 TRUSTED = ["modelled, not verified: std::fs (open/rename/remove/read_dir), flate2 (gunzip . gzip = id, validated by decompressing every archive), chrono formatting"]
 ASSUMPTIONS = ["no I/O faults, no kill (C19, C11), no foreign files (C14)", "the same naming scheme and cleanup strategy in all runs of a history"]
@@ -27,7 +30,11 @@ RULE = ("1-3 runs per case on one file specification under the virtual clock: ap
         "and one rotation; distinct = distinct case text")
 
 
+TZ_BY_OFFSET = True   # one harness process per zone offset
 VIA_LOGGER = 0.25   # share of the file-writer histories that is run once more through Logger / LoggerHandle
+
+
+OFFSETS = (0, 0, 3600, -34200)
 
 
 def corpus():
@@ -44,6 +51,12 @@ def corpus():
     # fixed defects, kept as regression cases: same-second restart without append; compressed-only family
     c = g.Cfg(crit="s25", naming="tsd")
     out.append("flw %d 0 ; B:%s W:%s S SN B:%s W:%s S SN" % (g.T0, c.token(), g.hx(b"A0\n"), c.token(), g.hx(b"B1\n")))
+    # fixed defect: append with use_utc and a zone offset <> 0 (the time stamp of the newest file was read back as local time)
+    for off in (3600, -3600):
+        c0 = g.Cfg(base=b"app", crit="s100", naming="tsd", utc=True)
+        c1 = g.Cfg(base=b"app", crit="s100", naming="tsd", utc=True, append=True)
+        out.append("flw 100000 %d ; B:%s W:%s T W:%s S SN K:5 B:%s W:%s T W:%s S SN K:5 B:%s W:%s T W:%s S SN" % (
+            off, c0.token(), g.hx(b"a\n"), g.hx(b"b\n"), c1.token(), g.hx(b"c\n"), g.hx(b"d\n"), c1.token(), g.hx(b"e\n"), g.hx(b"f\n")))
     c = g.Cfg(crit="s5", naming="num")
     out.append("flw %d 0 ; XC:%s:1:%s SN B:%s W:%s W:%s W:%s S SN" % (
         g.T0, g.hx(c.name(b"r00007") + b".gz"), g.hx(b"old7\n"), c.token(), g.hx(b"A0aaaaaa\n"), g.hx(b"B1\n"), g.hx(b"C2\n")))
@@ -52,11 +65,13 @@ def corpus():
 
 def generate(rng, tier):
     n = 500 if tier == "quick" else 30000
-    return [g.gen_runs(rng, tier, cleanups=("n", "n", "n", "l2", "b1.1"), preseed=0.3, sfxs=(b"log", b"log", b"trc", b"x_r5", b"log.txt", b"restart-5", None)) for _ in range(n)]
+    return [g.gen_runs(rng, tier, cleanups=("n", "n", "n", "l2", "b1.1"), preseed=0.3, sfxs=(b"log", b"log", b"trc", b"x_r5", b"log.txt", b"restart-5", None),
+                       offs=OFFSETS, utc_p=0.3) for _ in range(n)]
 
 
 def search(rng, tier, disagreeing):
-    return [g.gen_runs(rng, "thorough", cleanups=("n", "n", "l2", "b1.1"), preseed=0.3, sfxs=(b"log", b"trc", b"x_r5", b"log.txt", b"restart-5", None)) for _ in range(1500)]
+    return [g.gen_runs(rng, "thorough", cleanups=("n", "n", "l2", "b1.1"), preseed=0.3, sfxs=(b"log", b"trc", b"x_r5", b"log.txt", b"restart-5", None),
+                       offs=OFFSETS, utc_p=0.3) for _ in range(1500)]
 
 
 def classify(body, impl, verdict):
@@ -72,4 +87,5 @@ def features(body, obs, ghost):
     toks = body.split(" ; ", 1)[1].split(" ")
     cfgs = [t[2:].split(",") for t in toks if t.startswith("B:")]
     return ["naming=" + cfgs[0][7].split(".")[0], "runs=%d" % len(cfgs), "cleanup=" + cfgs[0][8][0],
-            "preseeded=%d" % any(t.startswith("XC:") for t in toks), "appends=%d" % sum(c[4] == "1" for c in cfgs)]
+            "preseeded=%d" % any(t.startswith("XC:") for t in toks), "appends=%d" % sum(c[4] == "1" for c in cfgs),
+            "off=" + body.split(" ")[2], "utc=" + cfgs[0][9]]
